@@ -443,9 +443,11 @@ def run_subquery_operand_case(p):
     d0 = O.make_domain(rng, 4, falsy=True)
     d1 = O.make_domain(rng, 3)
     c0 = ('cmp', rng.choice(['gt', 'ge', 'lt']), ('attr', 0, 'size'), ('lit', rng.choice([0, 1, 2])))
-    form = rng.choice(['bare', 'cmp'])
+    form = rng.choice(['bare', 'cmp', 'cmp_other'])
     conn = rng.choice(['or', 'and'])
     sub_first = rng.random() < 0.5
+    if form == 'cmp_other':
+        sub_first = False      # (kept away from the recorded finding: the sub-query attribute is not the first operand of or_)
     other1 = O.gen_cond(rng, 1, 1, falsy=True, vocab=('cmp', 'name'), neg=False)
     other2 = ('cmp', rng.choice(['eq', 'le', 'ne']), ('attr', 0, 'size'), ('index', 1, 'k'))
     op = rng.choice(['eq', 'le', 'ge', 'ne'])
@@ -457,6 +459,11 @@ def run_subquery_operand_case(p):
             if form == 'bare':
                 sub_c, oc = big.flag, O.build(other1, [x])
                 ref = lambda a, b: ((O.holds(c0, {0: a}) and bool(a.flag)), O.holds(other1, {0: a}))  # noqa
+            elif form == 'cmp_other':
+                # the sub-query SELECTS y while its condition is about x only: its variables are x and y all the same
+                sel_y = an(entity(y, O.build(c0, [x])))
+                sub_c, oc = O.OPS[op](sel_y.size, x.size), O.build(other2, [x, y])
+                ref = lambda a, b: ((O.holds(c0, {0: a}) and O.OPS[op](b.size, a.size)), O.holds(other2, {0: a, 1: b}))  # noqa
             else:
                 sub_c, oc = O.OPS[op](big.size, y.size), O.build(other2, [x, y])
                 ref = lambda a, b: ((O.holds(c0, {0: a}) and O.OPS[op](a.size, b.size)), O.holds(other2, {0: a, 1: b}))  # noqa
